@@ -650,7 +650,8 @@ def infidelity_derivative(
         Section A: General, Atomic and Solid State Physics, 303(4), 249–252.
         https://doi.org/10.1016/S0375-9601(02)01272-0
     """
-    spectrum = util.parse_spectrum(spectrum, omega, range(len(pulse.n_opers)))
+    n_idx = util.get_indices_from_identifiers(pulse.n_oper_identifiers, n_oper_identifiers)
+    spectrum = util.parse_spectrum(spectrum, omega, n_idx)
     filter_function_deriv = pulse.get_filter_function_derivative(omega,
                                                                  control_identifiers,
                                                                  n_oper_identifiers,
